@@ -67,6 +67,9 @@ pub mod types;
 pub mod var;
 pub mod vm;
 
+#[cfg(feature = "verif-hooks")]
+pub mod verif;
+
 #[cfg(test)]
 mod test {
     use crate::context::*;
